@@ -112,6 +112,11 @@ def run_op_case(ns, mon, case):
             xs[1] = (np.asarray(xs0[1]) > 0.5).astype(np.int64 if mixed == "hard-int-target" else np.bool_); ints[1] = True
         else:
             mixed = None
+        if op.name in ("nll_loss", "cross_entropy") and case["seed"] % 4 == 3 and len(xs) >= 2 and ints[1]:
+            # class indices counted from the end (-1 = last class), as NumPy indexing allows: if the loss accepts them it still only reads them
+            lab_ = np.array(xs[1], dtype=np.int64, copy=True)
+            lab_[::2] -= int(a["C"])
+            xs[1] = lab_
         argclass = op.argclass(a)
         state_ok = op.name == "batch_norm"
 
@@ -308,8 +313,14 @@ def run_program(ns, mon, case):
     g = np.asarray(gen.upstream(rng, out.shape, "normal") if out.shape else np.array(1.7))
     gt = T(g)
     g0 = snap([g])
+    del programs.LATE_MEMBERS[:-64]
+    late0 = [id(m_) for m_ in programs.LATE_MEMBERS if m_._grad is not None]
     out.backward(gt)
     viol = []
+    late_hit = [m_ for m_ in programs.LATE_MEMBERS if m_._grad is not None and id(m_) not in late0]
+    if late_hit:
+        viol.append(V("backward:gradient-given-to-a-tensor-outside-the-graph:list-member-added-after-the-call",
+                      "a tensor that the caller appended to its list after concat / stack had returned received a gradient buffer from a backward call through that result"))
     s1 = snap(watched)
     if s1 != s0:
         which = [i for i, (p, q) in enumerate(zip(s0, s1)) if p != q]
